@@ -232,7 +232,7 @@ pub fn run(args: &Args) {
         5,
     );
     p2panda_core::verif::install(hook);
-    let rounds = args.n(60, 4000);
+    let rounds = args.n(250, 6000);
     let mut total_sub = 0;
     let mut total_ret = 0;
     for r in 0..rounds {
